@@ -19,9 +19,28 @@
                           needs after the assignment breaks the module (or silently changes it).
   `eval_gen` says exactly what is lost in the first region (nothing but `is_one_of`);
   `schema_roundtrip` (= `C16_partial`) is the property on the complement of both regions.
+
+  Constants ("defaults of every literal kind incl. nested objects/enums/null/large floats/quotes,
+  multi-line descriptions", embedded via `repr`): the IR carries a constant as its VALUE; that the
+  TEXT `ast.unparse` writes for it (`repr`, Model/PyRepr.lean) denotes that value again is
+  `literal_roundtrip` — for every value tree of any size and depth, every string (every quote
+  choice, every escape), every `str.isprintable` table — against the reader of Spec/PyLiteral.lean
+  (CPython's literal syntax: modelled, validated on every written file, not verified).
+  `default_text_roundtrip` adds `Undefined`, which is written as a NAME, and
+  `gen_constants_read_back` says it of every constant position of the module emitted for a
+  well-formed schema.  What black does to that text afterwards is outside the model (the reader is
+  validated on black's output; black's own AST-equivalence is assumed).
+
+  Order of `schema.type_map` (= the order `print_schema` prints the types in): the evaluator lists
+  the types in type-map-dict order; that graphql-core's type collection (Spec/GqlCollect.lean:
+  modelled, validated against `list(schema.type_map)` of the source and of the generated schema on
+  every case) keeps the user's types in the order of the `types=` argument is `type_map_order`.
 -/
 import AriadneModel.Proofs.SchemaRoundtrip
 import AriadneModel.Proofs.SchemaPrune
+import AriadneModel.Proofs.PyLiteral
+import AriadneModel.Proofs.SchemaConsts
+import AriadneModel.Proofs.GqlCollect
 
 set_option linter.unusedSimpArgs false
 set_option linter.unusedVariables false
@@ -347,6 +366,139 @@ theorem input_types_up_to_oneOf (S : SchemaIR) (tm sv : Name) (hwf : wf S = true
     ∃ S', evalSchemaModule (gen S tm sv) sv = .ok S' ∧ S'.types[i]? = some (.input n d fs false) := by
   refine ⟨eraseOneOf S, eval_gen S tm sv hwf hsh, ?_⟩
   simp [eraseOneOf, ht, clearOneOf]
+
+/-! ### constants: the text `repr` writes denotes the value again -/
+
+open Ariadne.PyRepr Ariadne.PyLiteral in
+/-- **literal_roundtrip**: reading the `repr` text of a constant gives the constant — for every
+    value tree (no bound on size, depth, string length), whatever `str.isprintable` says of any
+    code point.  `finitePV`: every float is a finite float's `repr`. -/
+theorem literal_roundtrip (printable : Char → Bool) (v : PyVal) (h : finitePV v = true) :
+    readLiteral (reprPV printable v) = some v :=
+  PyLiteralProofs.readLiteral_reprPV printable v h
+
+open Ariadne.PyRepr Ariadne.PyLiteral in
+/-- the same for the installed interpreter's table and `String`s -/
+theorem pyRepr_roundtrip (v : PyVal) (h : finitePV v = true) : readLiteral (pyRepr v).toList = some v := by
+  unfold pyRepr
+  rw [String.toList_ofList]
+  exact literal_roundtrip pyPrintable v h
+
+open Ariadne.PyRepr Ariadne.PyLiteral in
+/-- every string — description, deprecation reason, `specifiedBy` URL, type / field / argument
+    name — reads back, with no hypothesis at all -/
+theorem string_roundtrip (printable : Char → Bool) (s : String) :
+    readLiteral (reprString printable s.toList) = some (.str s) :=
+  literal_roundtrip printable (.str s) rfl
+
+open Ariadne.SchemaConsts (cexprOK)
+
+open Ariadne.PyRepr Ariadne.PyLiteral in
+/-- a constant position reads back as what was generated: constants as their value, graphql-core's
+    `Undefined` as the NAME (never as a string, never as a constant) -/
+theorem cexpr_text_roundtrip (printable : Char → Bool) (c : CExpr) (h : cexprOK c = true) :
+    readCExpr (renderCExpr printable c) = some c := by
+  cases c with
+  | const v =>
+    simp only [renderCExpr, readCExpr, literal_roundtrip printable v h]
+  | name n =>
+    have hn : n = "Undefined" := by simpa [cexprOK] using h
+    subst hn
+    rfl
+
+open Ariadne.PyRepr Ariadne.PyLiteral in
+/-- **default_text_roundtrip**: `generate_constant(arg.default_value)` for every default value —
+    absent (`Undefined`), `None`, or any finite constant -/
+theorem default_text_roundtrip (printable : Char → Bool) (d : Default) (h : finiteDefault d = true) :
+    readCExpr (renderCExpr printable (genDefault d)) = some (genDefault d) := by
+  apply cexpr_text_roundtrip
+  cases d with
+  | undefined => rfl
+  | value v => exact h
+
+open Ariadne.PyRepr Ariadne.PyLiteral in
+theorem optstr_text_roundtrip (printable : Char → Bool) (o : Option String) :
+    readCExpr (renderCExpr printable (genOptStr o)) = some (genOptStr o) := by
+  apply cexpr_text_roundtrip
+  cases o <;> rfl
+
+open Ariadne.PyRepr Ariadne.PyLiteral in
+/-- **gen_constants_read_back**: in the module emitted for a well-formed schema EVERY constant
+    position — type names, descriptions, `specified_by_url`s, deprecation reasons, default values of
+    arguments / input fields / directive arguments, enum values, `is_repeatable`, the schema
+    description — carries a text that reads back as exactly what the generator put there. -/
+theorem gen_constants_read_back (printable : Char → Bool) (S : SchemaIR) (tm sv : Name) (hwf : wf S = true) :
+    ∀ c ∈ (gen S tm sv).consts, readCExpr (renderCExpr printable c) = some c :=
+  fun c hc => cexpr_text_roundtrip printable c (SchemaConsts.gen_consts_ok S tm sv hwf c hc)
+
+/-- non-vacuity: `sample` is well-formed and its module has 70 constant positions (names, `None`
+    and string descriptions, `Undefined` and nested dict / list / float / `None` defaults, enum values) -/
+example : wf sample = true ∧ (gen sample "type_map" "schema").consts.length = 70 := by decide
+
+/-- a string default `"Undefined"` / `"None"` is not confused with the name / the constant -/
+example : PyLiteral.readCExpr (PyLiteral.renderCExpr PyRepr.pyPrintable (.const (.str "Undefined"))) = some (.const (.str "Undefined")) :=
+  cexpr_text_roundtrip _ _ rfl
+example : PyRepr.pyRepr (.str "Undefined") = "'Undefined'" ∧ PyRepr.pyRepr (.str "it's") = "\"it's\"" ∧
+    PyRepr.pyRepr (.str "a'b\"c\\\n\x7fé ") = "'a\\'b\"c\\\\\\n\\x7fé\\u2028'" := by
+  refine ⟨by decide, by decide, by decide +kernel⟩
+
+/-- non-vacuity of `literal_roundtrip`: a nested object default with an explicit `null` key, a list
+    with a `null` item, quotes of both kinds, control and non-printable characters, a negative
+    integer beyond 2^64, large / small / negative-zero floats -/
+def sampleConst : PyVal :=
+  .dict [("name", .none), ("limit", .int 10), ("tags", .list [.str "a", .none, .str "it's \"q\" \\ \n\t\x00\x7f é   😀"]),
+         ("nested", .dict [("x", .float "1e+300"), ("y", .float "-0.0"), ("z", .float "5e-324"), ("b", .bool false)]),
+         ("big", .int (-36893488147419103233)), ("", .dict []), ("'", .list [])]
+
+example : finitePV sampleConst = true := by decide
+example : PyLiteral.readLiteral (PyRepr.reprPV PyRepr.pyPrintable sampleConst) = some sampleConst :=
+  literal_roundtrip _ _ (by decide)
+example : finitePV (.float "inf") = false ∧ finitePV (.float "nan") = false ∧ finitePV (.list [.float "-inf"]) = false := by decide
+
+/-! ### the order of `schema.type_map` -/
+
+theorem nodup_of_nodupB : ∀ xs : List String, nodupB xs = true → xs.Nodup := by
+  intro xs
+  induction xs with
+  | nil => intro _; exact List.nodup_nil
+  | cons x xs ih =>
+    intro h
+    simp only [nodupB, Bool.and_eq_true, Bool.not_eq_true', List.contains_eq_mem, decide_eq_false_iff_not] at h
+    exact List.nodup_cons.mpr ⟨h.1, ih h.2⟩
+
+open Ariadne.GqlCollect in
+/-- **type_map_order**: graphql-core's type collection, given the user's types in some order as
+    `types=` (the generated module passes `<type_map>.values()`, i.e. the source's order), yields a
+    `type_map` that lists them in exactly that order — whatever they reference, wherever the built-in
+    scalars and the introspection types end up in between. -/
+theorem type_map_order (S : SchemaIR) (hwf : wf S = true) :
+    (typeMapOrder S).filter (fun n => (S.types.map TypeDef.name).contains n) = S.types.map TypeDef.name :=
+  GqlCollectProofs.typeMapOrder_user S (nodup_of_nodupB _ (wf_split S hwf).1)
+
+open Ariadne.GqlCollect in
+/-- the same for any `types=` list of distinct names that contains the user's types (what
+    `build_client_schema` hands over for an introspected source: built-in types in between) -/
+theorem type_map_order_from (S : SchemaIR) (ts : List Name) (hnd : ts.Nodup)
+    (hU : ∀ u ∈ S.types.map TypeDef.name, u ∈ ts) :
+    (typeMapOrderFrom ts S).filter (fun n => (S.types.map TypeDef.name).contains n) =
+      ts.filter (fun n => (S.types.map TypeDef.name).contains n) :=
+  GqlCollectProofs.typeMapOrderFrom_user S ts hnd hU
+
+open Ariadne.GqlCollect in
+/-- … hence the schema the emitted module defines has the source's type order (same statement about
+    the evaluated schema, outside the finding regions) -/
+theorem roundtrip_type_order (S : SchemaIR) (tm sv : Name) (hwf : wf S = true)
+    (h1 : trigOneOf S = false) (h2 : trigShadow tm = false) :
+    ∃ S', evalSchemaModule (gen S tm sv) sv = .ok S' ∧
+      (typeMapOrder S').filter (fun n => (S.types.map TypeDef.name).contains n) = S.types.map TypeDef.name :=
+  ⟨S, schema_roundtrip S tm sv hwf h1 h2, type_map_order S hwf⟩
+
+/-- non-vacuity: in `sample` the built-in scalars land between the user's types, `Filter` references
+    itself, `User` is referenced before it is defined -/
+example : GqlCollect.typeMapOrder sample =
+    ["Date", "Color", "Filter", "ID", "Node", "Named", "String", "User", "Int", "Float", "Result", "RootQ",
+     "Boolean", "__Schema", "__Type", "__TypeKind", "__Field", "__InputValue", "__EnumValue", "__Directive",
+     "__DirectiveLocation"] := by decide
 
 /-! ### the chosen variable names -/
 
